@@ -69,8 +69,8 @@ P = {
              "any chunking, order and interleaving, decoy codes superseded; isotopes by M  ISO lines; D/T by symbol) are read as the "
              "same atom and bond dictionaries up to the spelling of coordinates; C08_same_string - hence the same TUCAN string, at "
              "text level with any line endings; C08_connection_table, C08_property_block, C08_property_line_entries, "
-             "C08_fixed_width_fields, C08_charge_codes, C08_hydrogen_isotopes; C08_block_written_in_columns: every property block laid out in the specification's fixed columns meets the block hypothesis of these theorems. Non-vacuity: a concrete pair of files meets every "
-             "hypothesis. Tied by correspondence on rendered V2000/V3000 pairs (incl. >99 atoms, explicit zero entries, blank "
+             "C08_fixed_width_fields, C08_charge_codes, C08_hydrogen_isotopes; C08_readers_agree_repeated_entries / C08_same_string_repeated_entries: the same when property lines name an atom several times (the last entry naming it counts, a last 0 revokes, a D/T mass then stays); C08_block_written_in_columns: every property block laid out in the specification's fixed columns meets the block hypothesis of these theorems. Non-vacuity: a concrete pair of files meets every "
+             "hypothesis. Tied by correspondence on rendered V2000/V3000 pairs (incl. >99 atoms, explicit zero entries, atoms named more than once, blank "
              "coordinate fields, unusual characters); probe compares both readers with the molecule and each other.",
              note="float parsing is opaque.",
              tech="Lean 4 proof (reader agreement on every stated molecule) + correspondence + paired V2000/V3000 probe"),
